@@ -196,13 +196,21 @@ impl Gen {
 
     fn steps(&mut self, raw: bool) -> Vec<Step> {
         let mut v = vec![];
-        let depth = 1 + self.rng.below(3);
+        // `Entry::insert` on a vacant entry returns an occupied handle that carries no key: the two calls hashbrown
+        // documents to panic on such a handle (replace_entry / replace_key) are not issued after it
+        let mut after_insert = false;
+        let deep = self.rng.chance(1, 4);
+        let depth = 1 + self.rng.below(if deep { 4 } else { 3 });
         for i in 0..depth {
             let last = i + 1 == depth;
             let a = self.rng.below(5);
             let val = 100 + self.rng.below(900);
             let s = if !last {
-                match self.rng.below(5) {
+                match self.rng.below(6) {
+                    5 => {
+                        after_insert = true;
+                        Step::Insert(val, a)
+                    }
                     0 => Step::AndModify(a),
                     1 => Step::AndReplace(self.rng.chance(2, 3), a),
                     2 => Step::OccInsert(val),
@@ -231,6 +239,7 @@ impl Gen {
                     _ => Step::AndReplace(false, a),
                 }
             };
+            let s = if after_insert && !raw && matches!(s, Step::OccReplaceEntry(_) | Step::OccReplaceKey) { Step::OccRemoveEntry } else { s };
             let term = s.terminal();
             // `vac_into_key` does not exist on the raw API
             let s = if raw && matches!(s, Step::VacIntoKey) { Step::AndModify(a) } else { s };
